@@ -23,7 +23,11 @@ import (
 	"encoding/json"
 	"errors"
 	"fmt"
+	"math"
 	"math/rand"
+	"os"
+	"syscall"
+	"testing"
 	"net"
 	"runtime/debug"
 	"strings"
@@ -88,9 +92,13 @@ func renderConfig(name string, mask uint16, flushIntervalS int, section []kv) st
 	return b.String()
 }
 
-// batch sizes: what an operator may write, sensible or not. Larger values than 100000 are left out on
-// purpose: datadog and newrelic pre-allocate a slice of that capacity for every batch (see the report).
-var batchSizes = []interface{}{-1000, -21, -1, 0, 1, 1, 2, 3, 5, 20, 21, 22, 25, 40, 100, 1000, 5000, 100000, "25", "-3", "x", 2.5}
+// batch sizes: what an operator may write, sensible or not, up to the largest value the key's type takes
+// (toml integers are 64 bit). A correct builder allocates by what it has, not by the limit; the address
+// space of the check process is capped in TestMain so that a builder which reserves metrics-per-batch
+// entries dies at once (fatal "out of memory", attributed by the driver through the write-ahead line)
+// instead of eating the machine.
+var batchSizes = []interface{}{-1000, -21, -1, 0, 1, 1, 2, 3, 5, 20, 21, 22, 25, 40, 100, 1000, 5000, 100000, "25", "-3", "x", 2.5,
+	100000000, int64(1) << 40, int64(math.MaxInt32), int64(math.MaxInt64), int64(math.MaxInt64) - 19, int64(math.MinInt64)}
 
 func pickV(rng *rand.Rand, v ...interface{}) interface{} { return v[rng.Intn(len(v))] }
 
@@ -243,6 +251,8 @@ func batchClass(text string) string {
 				return "negative"
 			case val == "0":
 				return "zero"
+			case len(val) >= 9:
+				return "huge"
 			case len(val) >= 4:
 				return "large"
 			case len(val) == 1:
@@ -470,4 +480,17 @@ func serverPhase(e *env, rng *rand.Rand, n int) {
 		}
 		runServerCase(e.r, e, sc)
 	}
+}
+
+// TestMain caps the address space of the check process: a payload builder that reserves memory in
+// proportion to a huge configured batch size then fails immediately instead of exhausting the machine.
+func TestMain(m *testing.M) {
+	const ceiling = 6 << 30
+	lim := syscall.Rlimit{Cur: ceiling, Max: ceiling}
+	var cur syscall.Rlimit
+	if syscall.Getrlimit(syscall.RLIMIT_AS, &cur) == nil && cur.Max != 0 && cur.Max < ceiling {
+		lim = syscall.Rlimit{Cur: cur.Max, Max: cur.Max}
+	}
+	_ = syscall.Setrlimit(syscall.RLIMIT_AS, &lim)
+	os.Exit(m.Run())
 }
